@@ -43,6 +43,7 @@ type Obligation struct {
 	Ms     int64
 	Model  string
 	Site   token.Position
+	Replay *ReplaySpec // a test that shows the failure on the real code, when one can be constructed
 }
 
 type addrKind int
@@ -2206,6 +2207,15 @@ func (vc *VC) GenerateLemmas(lemmas []*Clause) (err error) {
 	vc.st = &State{h: map[string]string{}}
 	vc.entry = vc.st
 	for _, l := range lemmas {
+		if l.Kind == "tables" {
+			obls, err := vc.P.EvalTablesClause(l, vc.key)
+			if err != nil {
+				return err
+			}
+			vc.groundUsed["transition tables and pool maps (evaluated by running the real constructors New() and fsm_pool.Init)"] = true
+			vc.obls = append(vc.obls, obls...)
+			continue
+		}
 		if l.Kind == "roundtrip" || l.Kind == "jsoncompat" {
 			t0 := time.Now()
 			ok, why, steps, trusted, err := vc.P.EvalJSONClause(l, vc.P.Spec.LemmaPkg[l])
@@ -2219,6 +2229,7 @@ func (vc *VC) GenerateLemmas(lemmas []*Clause) (err error) {
 				Solver: "json-judgement", Ms: time.Since(t0).Milliseconds(), Result: "unsat", Site: token.Position{Filename: l.File, Line: l.Line}}
 			if !ok {
 				o.Result, o.Model = "sat", "judgement fails: "+why
+				o.Replay = vc.P.jsonReplay(l, vc.P.Spec.LemmaPkg[l])
 			}
 			vc.obls = append(vc.obls, o)
 			continue
